@@ -51,6 +51,16 @@ def _declared_raises(path, func):
     return []
 
 
+def _post_allows_none(path, func):
+    with open(path) as f:
+        tree = ast.parse(f.read())
+    for node in ast.walk(tree):
+        if isinstance(node, ast.FunctionDef) and node.name == func:
+            doc = ast.get_docstring(node) or ''
+            return any(line.strip().startswith('post:') and 'None' in line for line in doc.splitlines())
+    return False
+
+
 def run_one(ob):
     path = ob.file if os.path.isabs(ob.file) else os.path.join(VERIF, 'harness', ob.file)
     line = _func_line(path, ob.func)
@@ -115,6 +125,9 @@ def replay_call(ob, call):
         if line.startswith('REPLAY '):
             d = json.loads(line[7:])
             if d.get('exception') and d['exception'] in _declared_raises(path, ob.func):
+                d['ok'] = True
+            elif d.get('result') == 'None' and _post_allows_none(path, ob.func):
+                # the harness declares None as "input outside the obligation" (post: _ in (True, None))
                 d['ok'] = True
             elif d.get('exception') in ('AttributeError', 'TypeError') and \
                     re.search(r"'(Fake\w*|Mem\w*|_[A-Z]\w*)'", d.get('msg', '')):
